@@ -188,7 +188,8 @@ impl Opts {
             cd_contiguous_to_end: true,
             decode_limit: 64 << 20,
             password: None,
-            zip64_exact: true,
+            // spare slots at the end of a ZIP64 block are tolerated by every reader and not excluded by any property
+            zip64_exact: false,
         }
     }
     /// For foreign archives: structure only.
